@@ -1,5 +1,7 @@
 """Utilities for parsing pytd files for builtins."""
 
+import dataclasses
+
 from pytype import pytype_source_utils
 from pytype.imports import base
 from pytype.platform_utils import path_utils
@@ -10,22 +12,24 @@ from pytype.pytd import visitors
 # loader call BuiltinsAndTyping.load directly, but the cache currently prevents
 # slowdowns in tests that create loaders willy-nilly.  Maybe load_pytd.py can
 # warn if there are more than n loaders in play, at any given time.
-_cached_builtins_pytd = []
+_cached_builtins_pytd = {}
 
 # pylint: disable=invalid-name
 # We use a mix of camel case and snake case method names in this file.
 
 
 def InvalidateCache():
-  if _cached_builtins_pytd:
-    del _cached_builtins_pytd[0]
+  _cached_builtins_pytd.clear()
 
 
 # Do not call this - get the "builtins" and "typing" modules via the loader.
 def GetBuiltinsAndTyping(options):
-  if not _cached_builtins_pytd:
-    _cached_builtins_pytd.append(BuiltinsAndTyping().load(options))
-  return _cached_builtins_pytd[0]
+  # The parsed stubs depend on the parsing options (e.g. on
+  # strict_primitive_comparisons), so the cache is keyed by them.
+  key = dataclasses.astuple(options)
+  if key not in _cached_builtins_pytd:
+    _cached_builtins_pytd[key] = BuiltinsAndTyping().load(options)
+  return _cached_builtins_pytd[key]
 
 
 # pyi for a catch-all module
